@@ -116,8 +116,10 @@ def lawJudge (op : String) (args : List Sexp) (impl : Sexp) : Bool × String :=
   | "law.forall.many", list [atom "L", cls, isOr, keep, ins, v0, v1, foreign]
   | "law.exists.many", list [atom "L", cls, isOr, keep, ins, v0, v1, foreign]
   | "law.deriv.many", list [atom "L", cls, isOr, keep, ins, v0, v1, foreign] =>
-    -- C06 on a wide disjunction / conjunction of 12 literals with 11 of them eliminated: what is left
-    -- is a function of the kept variable, computed here from the literal's polarity
+    -- C06 on a wide disjunction / conjunction of literals with all but one of them (and any number of
+    -- foreign names) eliminated: what is left is a function of the kept variable, computed here from the
+    -- literal's polarity — `C06.forall_many_or`, `forall_many_and`, `exists_many_or`, `exists_many_and`;
+    -- C07 with a foreign name in the set: `C07.expr_derivative_foreign`
     let lits := (decClauses cls).head?.getD []
     let k := decName keep
     let pol := ((lits.find? (·.1 == k)).map (·.2)).getD true
